@@ -466,8 +466,46 @@ func checkSuffixFilter(c *Ctx, p *core.Prog, fns []*ssa.Function) {
 
 // checkAddContentArgs: the loader passes split[0], split[1], split[2] as category, name, variant.
 func checkAddContentArgs(c *Ctx, p *core.Prog, fn *ssa.Function, what string) {
+	// what may stand between the loop over the files and the statement that adds a file: error tests, tests of a length
+	// (the number of path segments), the bound of a range loop
+	gate := func(call ssa.CallInstruction) string {
+		bad := ""
+		for _, ft := range core.FactsAtInstr(call.(ssa.Instruction)) {
+			cmp, isCmp := ft.AsCmp()
+			if isCmp {
+				if cst, isNil := cmp.Y.(*ssa.Const); isNil && (cmp.Op == token.EQL || cmp.Op == token.NEQ) && cst.Value == nil && cmp.X.Type().String() == "error" {
+					continue
+				}
+				isLen := func(v ssa.Value) bool {
+					call2, ok := v.(*ssa.Call)
+					if !ok {
+						return false
+					}
+					bi, isB := call2.Call.Value.(*ssa.Builtin)
+					return isB && bi.Name() == "len"
+				}
+				if isLen(cmp.X) || isLen(cmp.Y) {
+					continue
+				}
+				if _, isPhi := cmp.X.(*ssa.Phi); isPhi && (cmp.Op == token.LSS || cmp.Op == token.GEQ) {
+					continue
+				}
+			}
+			if _, isEx := ft.Cond.(*ssa.Extract); isEx {
+				continue
+			}
+			bad = eng.Describe(ft.Cond)
+		}
+		return bad
+	}
 	for _, call := range core.CallsIn(fn) {
 		cal := call.Common().StaticCallee()
+		if cal != nil && cal.Name() == "addDocument" && fn.Name() != "AddContent" && core.FuncPkgPath(cal) == v2pkg {
+			// the loader adds the tokenized file itself instead of calling AddContent: the same gate applies
+			bad := gate(call)
+			c.R.Check(bad == "", "R12.10", core.ShortFn(fn)+": every collected file of sufficient depth is added (addDocument called directly)", p.Pos(call.Pos()), "only the segment count and error tests stand between the loop over the files and the addition",
+				"whether a file is added also depends on "+bad+" (its size, what the corpus already holds): AddContent adds every text, LoadLicenses would skip some, so loading is no longer equivalent to AddContent for each file")
+		}
 		if cal == nil || cal.Name() != "AddContent" {
 			continue
 		}
@@ -639,6 +677,7 @@ func checkWalkCallback(c *Ctx, p *core.Prog, fns []*ssa.Function) {
 				continue
 			}
 			notDir := false
+			otherInfo := ""
 			for _, fct := range core.FactsAtInstr(call) {
 				cv, isCall := fct.Cond.(*ssa.Call)
 				if !isCall {
@@ -650,9 +689,19 @@ func checkWalkCallback(c *Ctx, p *core.Prog, fns []*ssa.Function) {
 				} else if cal := cv.Call.StaticCallee(); cal != nil {
 					name = cal.Name()
 				}
-				if (name == "IsDir" && !fct.Truth) || (name == "IsRegular" && fct.Truth) {
+				if name == "IsDir" && !fct.Truth {
 					notDir = true
 				}
+				// R12.14: ... and by nothing else the FileInfo says: a test of the mode bits (IsRegular, Type, Perm), the size or
+				// the time leaves out entries - a symbolic link to a text, an empty file - that one AddContent per file includes
+				switch name {
+				case "IsRegular", "Type", "Perm", "Size", "ModTime", "Mode":
+					otherInfo = name + " (" + p.Pos(cv.Pos()) + ")"
+				}
+			}
+			if notDir {
+				c.R.Check(otherInfo == "", "R12.14", core.ShortFn(f)+": an entry is collected by its name and by not being a directory, nothing else", p.Pos(call.Pos()), "no other property of the FileInfo is tested",
+					"whether an entry is collected also depends on "+otherInfo+": entries that are not regular files - a symbolic link to a license text - are silently left out, while AddContent per file includes them")
 			}
 			c.R.Check(notDir, "R12.8", core.ShortFn(f)+": only entries that are not directories are collected", p.Pos(call.Pos()), "the append is dominated by IsDir() == false",
 				"a path is collected by its name alone: a directory whose name ends in \"txt\" is read as a file, which fails (\"is a directory\") and makes LoadLicenses return without loading the files that sort after it")
